@@ -481,6 +481,7 @@ func (w *world) after(p pending, signers []neotest.Signer, role []int, r chainx.
 			has = true
 		}
 	}
+	w.voteMonitor(p, r, site)
 	if !r.Halt {
 		if !sameKVs(p.pre, post) || p.preVer != postVer {
 			w.run.Violation(prop, site, "fault-changed-state", fmt.Sprintf("update FAULTed (%s) but version %s -> %s, storage items %d -> %d",
@@ -517,5 +518,65 @@ func (w *world) after(p pending, signers []neotest.Signer, role []int, r chainx.
 			}
 			w.run.Violation(prop, site, "read-api:"+kind, fmt.Sprintf("from version %d: %s expected %s got %s", vb, e.q, e.want, got))
 		}
+	}
+}
+
+// voteKindsSet: contracts whose switchToNotary looks at the ballots
+var voteKindsSet = map[string]bool{"reputation": true, "neofsid": true, "balance": true, "container": true, "netmap": true, "alphabet": true}
+
+// voteMonitor: a notary-disabled contract (flag reads true, version below 0.17) must refuse the upgrade exactly while a
+// vote is in progress, i.e. while ANY stored ballot is at most 20 blocks old at the height the update executes at,
+// wherever it stands in the list. Decoded from the pre-upgrade storage; in-quantifier cases with a readable list only.
+func (w *world) voteMonitor(p pending, r chainx.Result, site string) {
+	vb, err := strconv.Atoi(p.preVer)
+	if err != nil || !w.wf || !voteKindsSet[w.kind] || vb >= 17000 || vb < common.PrevVersion {
+		return
+	}
+	var flag, raw []byte
+	hasFlag, hasBallots := false, false
+	for _, kv := range p.pre {
+		switch string(kv.K) {
+		case "notary":
+			flag, hasFlag = kv.V, true
+		case "ballots":
+			raw, hasBallots = kv.V, true
+		}
+	}
+	if !hasFlag || !truthy(flag) {
+		return
+	}
+	seen := int64(r.Height) - 1 // ledger.CurrentIndex() during the execution
+	alive, desc := false, "no ballots"
+	if hasBallots {
+		l, ok := deserFields(raw)
+		if !ok {
+			return
+		}
+		var ds []string
+		for _, b := range l {
+			f, ok := b.Value().([]stackitem.Item)
+			if !ok || len(f) < 3 {
+				return
+			}
+			h, err := f[2].TryInteger()
+			if err != nil {
+				return
+			}
+			gap := seen - h.Int64()
+			ds = append(ds, strconv.FormatInt(gap, 10))
+			if gap <= 20 {
+				alive = true
+			}
+		}
+		desc = "ballot ages in list order [" + strings.Join(ds, " ") + "] blocks"
+	}
+	changed := !sameKVs(p.pre, w.scan()) || p.preVer != w.version()
+	if alive && (r.Halt || changed) {
+		w.run.Violation(prop, site, "update-with-pending-vote-accepted", fmt.Sprintf(
+			"from version %d, notary flag set, %s: a vote is in progress but the update went through (halt=%v, state changed=%v)", vb, desc, r.Halt, changed))
+	}
+	if !alive && !r.Halt && strings.Contains(r.Fault, "pending vote detected") {
+		w.run.Violation(prop, site, "update-refused-without-pending-vote", fmt.Sprintf(
+			"from version %d, notary flag set, %s: no vote is in progress but the update was refused: %s", vb, desc, r.Fault))
 	}
 }
